@@ -44,9 +44,22 @@ def _el_div(a, b):
     return f   # result of true division is float-like even when integral
 
 
+def _el_div_np(a, b):
+    """numpy semantics for array division: x/0 is inf (nan for 0/0), not an exception"""
+    bz = symnp._ex(b)
+    zero = bz.is_zero() if isinstance(bz, Sx) else (not isinstance(bz, (symnp._NaN, core.Qx)) and bz == 0)
+    if zero:
+        az = symnp._ex(a)
+        if isinstance(az, symnp._NaN):
+            return az
+        azero = az.is_zero() if isinstance(az, Sx) else (not isinstance(az, core.Qx) and az == 0)
+        return symnp.NaN if azero else symnp.INF
+    return _el_div(a, b)
+
+
 def vdiv(a, b):
     if isinstance(a, _np.ndarray) or isinstance(b, _np.ndarray):
-        return symnp._map2(_el_div, a, b)
+        return symnp._map2(_el_div_np, a, b)
     if _is_plain(a) and _is_plain(b):
         return _el_div(a, b)
     return a / b     # objects with their own __truediv__ (RichData, Wavefront ...)
